@@ -3,6 +3,7 @@ import NanoVerif.Model.Nvm
 import NanoVerif.Model.Verifier
 import NanoVerif.Model.Vm
 import NanoVerif.Model.Cop
+import NanoVerif.Model.CopClient
 namespace NanoVerif.Driver
 
 def natList (ws : List String) : Option (List Nat) := ws.mapM String.toNat?
@@ -243,9 +244,25 @@ def copDeCmd (hex : String) : String :=
   match ofHex hex with
   | none => "bad-op"
   | some bs =>
-    match copDe (bs.length + 2) bs with
+    match copDe 65 bs with   -- COP_MAX_NESTING = 64: depths 0..64
     | none => "err"
     | some (v, n) => s!"ok {n} " ++ cvalText v
+
+/-- `cop.run <sigign 0|1> <gone:replyhex,...>`: a program making one extern call per entry -/
+def copRunCmd (ws : List String) : String :=
+  match ws with
+  | [sig, calls] =>
+    let parsed := (calls.splitOn ",").mapM fun c =>
+      match c.splitOn ":" with
+      | [g, hx] => (ofHex hx).map fun b => (g == "1", b)
+      | _ => none
+    match parsed with
+    | none => "bad-op"
+    | some cs =>
+      match runCalls { sigpipeIgnored := sig == "1" } cs 0 with
+      | .exit code n => s!"exit {code} {n}"
+      | .signal w => s!"signal {w}"
+  | _ => "bad-op"
 
 def handle (line : String) : String :=
   match line.splitOn " " with
@@ -259,6 +276,7 @@ def handle (line : String) : String :=
   | "vm.run" :: ws => vmRun ws
   | "cop.ser" :: ws => copSerCmd ws
   | "cop.de" :: [hex] => copDeCmd hex
+  | "cop.run" :: ws => copRunCmd ws
   | _ => "bad-op"
 
 end NanoVerif.Driver
